@@ -1491,7 +1491,7 @@ mut("C24", "calls_from_target_dropped", CG, """            if edges_on_paths_to_
 
 # ---------------- C06 R7 / C13 R7
 mut("C06", "normalize_equal_content_on_subset", BRK, "                        else if current_brick.get_sequence() == next_brick.get_sequence() {", "                        else if next_brick.get_sequence().is_subset(current_brick.get_sequence()) {", ["R7|normalize|merge_bricks_with_equal_content|precondition"], "rule 4 applied for a subset of the strings")
-mut("C06", "normalize_break_without_min_test", BRK, "                if current_brick.get_min() >= 1 && current_brick.get_max() > current_brick.get_min()", "                if current_brick.get_max() > current_brick.get_min()", [], "rule 5 without min >= 1 (undecided / harmless for min 0: S^0 = empty string)")
+mut("C06", "SILENT_normalize_break_without_min_test", BRK, "                if current_brick.get_min() >= 1 && current_brick.get_max() > current_brick.get_min()", "                if current_brick.get_max() > current_brick.get_min()", [], "rule 5 without min >= 1 (undecided / harmless for min 0: S^0 = empty string)")
 AH = L + "analysis/pointer_inference/state/access_handling.rs"
 mut("C13", "null_zone_includes_minus_1024", AH, """            if (start_index > -1024 && start_index < 1024)
                 || (end_index > -1024 && end_index < 1024)""", """            if (start_index >= -1024 && start_index < 1024)
